@@ -7,7 +7,7 @@ byte offset); which reads accept which element is a solver choice. Every read of
 parse of the array prescribes.
 """
 import itertools
-import re
+import re, sys
 import z3
 from .. import run as R, models as M, mapmodels as MM, prov as P, seqmodels as SQ
 from ..sym import Ctx, Executor, Node, Ptr, Opaque, OBJ, to_term, Fork, Unsupported, StrConst, Event
@@ -540,6 +540,50 @@ def _native_args(k, kinds, model, absent):
     return {"text": text, "reads": [[kd, rt[j]] for j, kd in enumerate(kinds)]}
 
 
+_POOL_TYPES = None
+
+
+def _to_smt(c):
+    sv = z3.Solver()
+    sv.add(c)
+    return sv.to_smt2()
+
+
+def _from_smt(txt):
+    fs = z3.parse_smt2_string(txt)
+    return z3.And(*fs) if len(fs) != 1 else fs[0]
+
+
+def _explore_job(job):
+    """one read sequence, run in a worker process: the conditions travel back as SMT-LIB2 text"""
+    k, kinds, absent = job
+    viol, reach, d = explore(_POOL_TYPES, k, kinds, absent)
+    plain_trace = lambda tr: [(a, tuple(str(x) for x in b)) for a, b in tr]
+    return ([(_to_smt(c), why, plain_trace(tr)) for c, why, tr in viol], [_to_smt(c) for c in reach], sorted(d.ctx.encoded_bodies),
+            [tuple(str(x) for x in a) for a in d.abnormal])
+
+
+def _explore_all(types, jobs):
+    """the read sequences are independent of each other: explored on all cores (fork: the parsed MIR is shared), sequentially if that is not possible"""
+    global _POOL_TYPES
+    import multiprocessing as mp
+    import os as _os
+    n = min(len(jobs), max(1, (_os.cpu_count() or 2) - 2))
+    if n > 1 and _os.environ.get("VERIF_C16_SEQUENTIAL") != "1":
+        try:
+            _POOL_TYPES = types
+            with mp.get_context("fork").Pool(n) as pool:
+                res = pool.map(_explore_job, jobs, chunksize=1)
+            return [([(_from_smt(c), why, tr) for c, why, tr in v], [_from_smt(c) for c in r], enc, abn) for v, r, enc, abn in res]
+        except Exception as e:       # noqa: BLE001 - any failure of the pool falls back to the sequential run, whose result decides
+            sys.stderr.write(f"[C16] parallel exploration not available ({e!r}); running sequentially\n")
+    out = []
+    for k, kinds, absent in jobs:
+        viol, reach, d = explore(types, k, kinds, absent)
+        out.append((viol, reach, sorted(d.ctx.encoded_bodies), list(d.abnormal)))
+    return out
+
+
 def sequence_obligations(types, tier, K=None, Mx=None, only=None):
     out = []
     K0, Mx0 = (2, 3) if tier == "quick" else (3, 4)
@@ -549,17 +593,15 @@ def sequence_obligations(types, tier, K=None, Mx=None, only=None):
     abnormal = []
     reach_all = []
     n_runs = 0
-    for absent in (False, True):
-        for k in ([0] if absent else range(K + 1)):
-            for m in range(1, Mx + 1):
-                for kinds in itertools.product(("next", "optional"), repeat=m):
-                    viol, reach, d = explore(types, k, kinds, absent)
-                    n_runs += 1
-                    bodies |= set(d.ctx.encoded_bodies)
-                    abnormal += d.abnormal
-                    reach_all += reach
-                    for cond, why, trace in viol:
-                        groups.setdefault(why, []).append((cond, trace, k, kinds, absent))
+    jobs = [(k, kinds, absent) for absent in (False, True) for k in ([0] if absent else range(K + 1)) for m in range(1, Mx + 1)
+            for kinds in itertools.product(("next", "optional"), repeat=m)]
+    for (k, kinds, absent), (viol, reach, enc, abn) in zip(jobs, _explore_all(types, jobs)):
+        n_runs += 1
+        bodies |= set(enc)
+        abnormal += abn
+        reach_all += reach
+        for cond, why, trace in viol:
+            groups.setdefault(why, []).append((cond, trace, k, kinds, absent))
     if abnormal:
         out.append(R.Result(engine="mirsym", name="sequence:encoding", kind="state-machine", status="unsupported", detail=str(abnormal[:2])[:400], bodies=sorted(bodies)))
         return out
